@@ -162,8 +162,11 @@ theorem floatAdd_eq_std (s : St) (e : Eng) (a b : Dense) (u : Bool)
     unfold eOp isSc
     rw [hv, hw]
     cases h1 : (b.win.len == 1) <;> simp
+  have hpa : ∀ s' : St, prepAliasVV s' a b none = Except.ok (s', a, b) := fun _ => rfl
+  have hbind : ∀ (p : St × Dense × Dense) (f : St × Dense × Dense → Res EngOut), (Except.ok p >>= f) = f p :=
+    fun _ _ => rfl
   unfold engFloatAdd engArithVV handleFuncOptsF handleFuncOpts
-  simp [hia, hib, hdt, hdb, hsh, hord, hnum, hk]
+  simp [hia, hib, hdt, hdb, hsh, hord, hnum, hk, hpa, hbind]
   cases u
   · simp
     cases hc : Dense.clone s a with
@@ -184,14 +187,17 @@ theorem floatFMA_refuses_shape_mismatch (s : St) (e : Eng) (a x y : Dense)
 
 /-- `FMA(a, x, y)`, contiguous path: the specialised engines' fused kernel is the default engine's
     `Mul(a, x, WithIncr(y))` — the shape-mismatch error when the shapes of `a` and `x` differ, and the
-    plain `MulIncr` kernel otherwise (`y` of the operands' shape and order, more than one element). -/
+    plain `MulIncr` kernel otherwise (`y` of the operands' shape and order, more than one element). Operands that share
+    memory with `y` are copied first by `prepDataVV`, which both engines call; the equality is stated for operands that
+    do not. -/
 theorem floatFMA_eq_std (s : St) (e : Eng) (a x y : Dense)
     (he : e ≠ .std) (hdt : a.dt = engDt e) (hdx : x.dt = a.dt) (hdy : y.dt = a.dt)
     (hshy : shapeEq y.shape a.shape = true)
     (hord : sameOrd a x = true) (hordy : sameOrd a y = true)
     (hia : a.requiresIterator = false) (hix : x.requiresIterator = false) (hiy : y.requiresIterator = false)
     (hleny : (y.win.len : Int) = totalSize a.shape)
-    (hna : a.win.len ≠ 1) (hnx : x.win.len ≠ 1) :
+    (hna : a.win.len ≠ 1) (hnx : x.win.len ≠ 1)
+    (hsa : sharesMemory a y = false) (hsx : sharesMemory x y = false) :
     engFloatFMA s e a x y = engArithVV s "mul" numberTypes a x { incr := some y } := by
   have hnum : engDt e ∈ numberTypes := by
     cases e <;> simp_all [engDt, numberTypes]
@@ -209,8 +215,12 @@ theorem floatFMA_eq_std (s : St) (e : Eng) (a x y : Dense)
     unfold sameOrd at *; simp_all
   have hty : totalSize y.shape = totalSize a.shape := shapeEq_totalSize _ _ hshy
   have hnr : incrRefused a.win x.win y.win = false := by simp [incrRefused, isSc, hna, hnx]
+  have hpa : ∀ s' : St, prepAliasVV s' a x (some y) = Except.ok (s', a, x) := fun s' => by
+    simp [prepAliasVV, operandFor, hsa, hsx, bind, Except.bind, pure, Except.pure]
   unfold engFloatFMA engArithVV handleFuncOpts eOpIncr isSc
-  simp [hia, hix, hiy, hdt, hdx, hdy, hsh, hshy, hord, hordy, hoxy, hnum, hk, hleny, hna, hnx, hv, hty, hnr]
+  have hbind : ∀ (p : St × Dense × Dense) (f : St × Dense × Dense → Res EngOut), (Except.ok p >>= f) = f p :=
+    fun _ _ => rfl
+  simp [hia, hix, hiy, hdt, hdx, hdy, hsh, hshy, hord, hordy, hoxy, hnum, hk, hleny, hna, hnx, hv, hty, hnr, hpa, hbind]
 
 /-! ## non-vacuity -/
 
